@@ -367,3 +367,348 @@ Proof.
   exists k. rewrite r_feed_app, F3. cbv beta iota. rewrite r_feed_app, F2. cbv beta iota.
   rewrite r_feed_app, F1. cbv beta iota. rewrite F0. now rewrite <- !app_assoc in D0.
 Qed.
+
+(* ------------------------------------------------------------------ digits of a value *)
+Lemma digitsk_length k n : length (digitsk k n) = k.
+Proof. revert n; induction k as [|k IH]; intros n; cbn [digitsk]; [reflexivity|]. rewrite app_length, IH. cbn. lia. Qed.
+
+Lemma digitsk_digits k n : all_digits (digitsk k n).
+Proof.
+  revert n; induction k as [|k IH]; intros n; cbn [digitsk]; [constructor|].
+  apply all_digits_app; [apply IH|]. constructor; [|constructor]. apply N.mod_lt. lia.
+Qed.
+
+Lemma to_N_snoc l d : to_N (l ++ [d]) = (10 * to_N l + d)%N.
+Proof. rewrite to_N_app. cbn [length]. change (N.of_nat 1) with 1%N. rewrite N.pow_1_r. unfold to_N at 2. cbn [to_N_acc]. lia. Qed.
+
+(* the digit string denotes n (mod 10^k): digitsk IS the decimal expansion *)
+Lemma to_N_digitsk k n : to_N (digitsk k n) = (n mod 10 ^ N.of_nat k)%N.
+Proof.
+  revert n; induction k as [|k IH]; intros n.
+  - cbn [digitsk]. change (N.of_nat 0) with 0%N. rewrite N.pow_0_r, N.mod_1_r. reflexivity.
+  - cbn [digitsk]. rewrite to_N_snoc, IH, Nat2N.inj_succ, N.pow_succ_r'.
+    rewrite (N.mod_mul_r n 10 (10 ^ N.of_nat k)) by (try apply N.pow_nonzero; lia). lia.
+Qed.
+
+Lemma digitsk_add a b n : digitsk (a + b) n = digitsk a (n / 10 ^ N.of_nat b) ++ digitsk b n.
+Proof.
+  revert n; induction b as [|b IH]; intros n.
+  - rewrite Nat.add_0_r. change (N.of_nat 0) with 0%N. rewrite N.pow_0_r, N.div_1_r. cbn [digitsk]. now rewrite app_nil_r.
+  - rewrite Nat.add_succ_r. cbn [digitsk]. rewrite IH, <- app_assoc. do 2 f_equal.
+    rewrite Nat2N.inj_succ, N.pow_succ_r', N.div_div by (try apply N.pow_nonzero; lia). reflexivity.
+Qed.
+
+Lemma gdig_grp_of m : gdig (grp_of m) = digitsk 4 m.
+Proof. reflexivity. Qed.
+
+Lemma gdigits_grp_of m : gdigits (grp_of m).
+Proof. unfold gdigits, grp_of. repeat split; apply N.mod_lt; lia. Qed.
+
+Lemma groups16_digits n :
+  let '(g3, g2, g1, g0) := groups16 n in gdig g3 ++ gdig g2 ++ gdig g1 ++ gdig g0 = digitsk 16 n.
+Proof.
+  unfold groups16. rewrite !gdig_grp_of.
+  change 16 with (4 + 12). rewrite (digitsk_add 4 12 n). f_equal.
+  change 12 with (4 + 8). rewrite (digitsk_add 4 8 n). f_equal.
+  change 8 with (4 + 4). rewrite (digitsk_add 4 4 n). reflexivity.
+Qed.
+
+Lemma to_N_strip l : to_N (strip l) = to_N l.
+Proof.
+  induction l as [|x l IH]; [reflexivity|]. cbn [strip]. destruct (N.eqb_spec x 0) as [->|]; [|reflexivity].
+  rewrite IH. change (0%N :: l) with ([0%N] ++ l). rewrite to_N_app. unfold to_N at 2. cbn [to_N_acc]. lia.
+Qed.
+
+(* dec16 n is THE decimal rendering of 0 < n < 10^16: decimal digits, no leading zero, value n *)
+Theorem dec16_spec n :
+  (0 < n < 10 ^ 16)%N ->
+  to_N (dec16 n) = n /\ all_digits (dec16 n) /\ exists x t, dec16 n = x :: t /\ x <> 0%N.
+Proof.
+  intros Hn. unfold dec16.
+  assert (Hv : to_N (strip (digitsk 16 n)) = n).
+  { rewrite to_N_strip, to_N_digitsk. apply N.mod_small. exact (proj2 Hn). }
+  split; [assumption|]. split; [apply strip_digits, digitsk_digits|].
+  destruct (strip (digitsk 16 n)) as [|x t] eqn:E.
+  - cbn in Hv. lia.
+  - exists x, t. split; [reflexivity|]. eapply strip_head; eassumption.
+Qed.
+
+(* two digit strings without leading zero that denote the same value are equal: the rendering is unique *)
+Lemma to_N_bound l : all_digits l -> (to_N l < 10 ^ N.of_nat (length l))%N.
+Proof.
+  induction l as [|d l IH] using rev_ind; intros Hd.
+  - cbn. lia.
+  - unfold all_digits in Hd. rewrite Forall_app in Hd. destruct Hd as [Hl Hd]. inversion Hd; subst.
+    rewrite to_N_snoc, app_length. cbn [length]. rewrite Nat.add_1_r, Nat2N.inj_succ, N.pow_succ_r'.
+    specialize (IH Hl). lia.
+Qed.
+
+Lemma to_N_lower x t : x <> 0%N -> (10 ^ N.of_nat (length t) <= to_N (x :: t))%N.
+Proof.
+  intros Hx. change (x :: t) with ([x] ++ t). rewrite to_N_app. unfold to_N at 1. cbn [to_N_acc].
+  assert (1 <= x)%N by lia. nia.
+Qed.
+
+Lemma to_N_inj_len l1 l2 : all_digits l1 -> all_digits l2 -> length l1 = length l2 -> to_N l1 = to_N l2 -> l1 = l2.
+Proof.
+  revert l2. induction l1 as [|d1 l1 IH] using rev_ind; intros l2 H1 H2 Hl Hv.
+  - destruct l2; [reflexivity | discriminate].
+  - destruct l2 as [|d2 l2] using rev_ind; [rewrite app_length in Hl; cbn in Hl; lia|]. clear IHl2.
+    unfold all_digits in *. rewrite Forall_app in H1, H2. destruct H1 as [H1 Hd1], H2 as [H2 Hd2].
+    inversion Hd1; inversion Hd2; subst. rewrite !to_N_snoc in Hv. rewrite !app_length in Hl. cbn [length] in Hl.
+    assert (d1 = d2 /\ to_N l1 = to_N l2) as [-> Hv'] by lia.
+    f_equal. apply IH; [assumption | assumption | lia | assumption].
+Qed.
+
+Theorem decimal_rendering_unique l1 l2 x1 t1 x2 t2 :
+  all_digits l1 -> all_digits l2 -> l1 = x1 :: t1 -> l2 = x2 :: t2 -> x1 <> 0%N -> x2 <> 0%N ->
+  to_N l1 = to_N l2 -> l1 = l2.
+Proof.
+  intros H1 H2 -> -> Hx1 Hx2 Hv. apply to_N_inj_len; try assumption.
+  pose proof (to_N_bound _ H1) as B1. pose proof (to_N_bound _ H2) as B2.
+  pose proof (to_N_lower x1 t1 Hx1) as L1. pose proof (to_N_lower x2 t2 Hx2) as L2.
+  cbn [length] in *. rewrite Nat2N.inj_succ, N.pow_succ_r' in B1, B2.
+  destruct (Nat.lt_trichotomy (length t1) (length t2)) as [Hlt|[Heq|Hgt]]; [exfalso | now rewrite Heq | exfalso].
+  - assert (10 ^ N.of_nat (length t2) >= 10 * 10 ^ N.of_nat (length t1))%N.
+    { replace (length t2) with (S (length t1) + (length t2 - S (length t1))) by lia.
+      rewrite Nat2N.inj_add, Nat2N.inj_succ, N.pow_add_r, N.pow_succ_r'.
+      assert (1 <= 10 ^ N.of_nat (length t2 - S (length t1)))%N by (apply N.lt_pred_le, N.neq_0_lt_0, N.pow_nonzero; lia). nia. }
+    lia.
+  - assert (10 ^ N.of_nat (length t1) >= 10 * 10 ^ N.of_nat (length t2))%N.
+    { replace (length t1) with (S (length t2) + (length t1 - S (length t2))) by lia.
+      rewrite Nat2N.inj_add, Nat2N.inj_succ, N.pow_add_r, N.pow_succ_r'.
+      assert (1 <= 10 ^ N.of_nat (length t1 - S (length t2)))%N by (apply N.lt_pred_le, N.neq_0_lt_0, N.pow_nonzero; lia). nia. }
+    lia.
+Qed.
+
+(* ------------------------------------------------------------------ canonical writings denote their value *)
+Lemma render_int D k : D <> [] -> render_r (RNum D [] k) = map digit_char D.
+Proof. intros H. unfold render_r, render. cbn [fst snd strip_zero_digits]. destruct D; [contradiction | reflexivity]. Qed.
+
+Theorem canonical_value_ref kinds sty n :
+  (0 < n < 10 ^ 16)%N -> exists k, r_parse C (canon_of kinds sty n) = (true, 0%N, RNum (dec16 n) [] k).
+Proof.
+  intros Hn. unfold canon_of, dec16. pose proof (groups16_digits n) as Hg.
+  destruct (groups16 n) as [[[g3 g2] g1] g0] eqn:Eg. rewrite <- Hg.
+  unfold groups16 in Eg. injection Eg as <- <- <- <-.
+  apply (wnum_value (group_writer kinds sty) (fun i => if kinds i then (fun _ => 0) else groom)).
+  - intros i. apply group_writer_ok.
+  - apply gdigits_grp_of.
+  - apply gdigits_grp_of.
+  - apply gdigits_grp_of.
+  - apply gdigits_grp_of.
+  - fold (groups16 n) in Hg. change (strip (gdig (grp_of (n / 10 ^ 12)) ++ gdig (grp_of (n / 10 ^ 8)) ++ gdig (grp_of (n / 10 ^ 4)) ++ gdig (grp_of n)) <> []).
+    pose proof (groups16_digits n) as Hg'. unfold groups16 in Hg'. rewrite Hg'.
+    destruct (dec16_spec n Hn) as (_ & _ & x & t & E & _). unfold dec16 in E. rewrite E. discriminate.
+Qed.
+
+(* the model parser on a canonical writing of n: accepted, normalised to the decimal rendering of n *)
+Theorem canonical_value_std kinds sty n :
+  (0 < n < 10 ^ 16)%N -> parse C (canon_of kinds sty n) = (true, 0%N, map digit_char (dec16 n)).
+Proof.
+  intros Hn. destruct (canonical_value_ref kinds sty n Hn) as (k & Hr).
+  pose proof (parse_refines_std (canon_of kinds sty n)) as H. rewrite Hr in H.
+  destruct (parse C (canon_of kinds sty n)) as [[ok e] out]. destruct H as (-> & -> & Hout).
+  rewrite (Hout eq_refl). f_equal. apply render_int.
+  destruct (dec16_spec n Hn) as (_ & _ & x & t & E & _). rewrite E. discriminate.
+Qed.
+
+Theorem canonical_value cfg kinds sty n :
+  cfg = std_cfg -> (0 < n < 10 ^ 16)%N -> parse cfg (canon_of kinds sty n) = (true, 0%N, map digit_char (dec16 n)).
+Proof. intros ->. apply canonical_value_std. Qed.
+
+(* ------------------------------------------------------------------ large units that repeat or increase *)
+Lemma r_done_clean tot : r_done C (ss tot REmpty) = (true, 0%N, tot).
+Proof. unfold r_done, ss. cbn [rsub r_tmp rip r_add rtot rhp rhc rer andb]. now destruct tot. Qed.
+
+(* group + large unit in a state with a non-empty total, failing state exposed *)
+Lemma large_step' w room g u E ipt kt :
+  gw_ok w room -> gdigits g -> gz g = false -> large_unit u E ->
+  exists rp', rer rp' = 0%N /\
+  r_feed C (ss (RNum ipt [] kt) REmpty) (w g ++ [u]) =
+  if length (sdig g) + E <=? kt
+  then (true, ss (RNum (firstn (length ipt - (length (sdig g) + E)) ipt ++ sdig g ++ repeat 0%N E) [] (room g + E)) REmpty)
+  else (false, rp').
+Proof.
+  intros Hw Hd Hz Hu. destruct (Hw g (RNum ipt [] kt) Hd Hz) as (rp' & Hf & Ht & Hhp & Hhc & Her & Hadd).
+  exists rp'. split; [assumption|].
+  rewrite r_feed_app, Hf. cbn [r_feed]. rewrite (r_append_large _ _ _ Hu), Hadd. cbn [r_is_empty].
+  rewrite r_shift_int, Ht. cbn [r_add]. rewrite app_length, repeat_length.
+  destruct (length (sdig g) + E <=? kt); [|reflexivity]. rewrite Hhp, Her. reflexivity.
+Qed.
+
+(* the numeral  <group 1> U1 <group 2> U2  with ARBITRARY large units U1 = 10^E1, U2 = 10^E2 (in order, repeated, or
+   increasing): accepted iff the digits of group 2 plus E2 fit into room(group 1) + E1; the value is then group 1 with
+   group 2 written into its zero positions; otherwise rejected, error state NONE *)
+Definition two_unit_text (w1 w2 : grp -> list N) g1 u1 g2 u2 : list N := (w1 g1 ++ [u1]) ++ (w2 g2 ++ [u2]).
+Definition two_unit_fits (room1 : grp -> nat) g1 E1 g2 E2 : bool := length (sdig g2) + E2 <=? room1 g1 + E1.
+Definition two_unit_digits g1 E1 g2 E2 : list N :=
+  firstn (length (sdig g1) + E1 - (length (sdig g2) + E2)) (sdig g1 ++ repeat 0%N E1) ++ sdig g2 ++ repeat 0%N E2.
+
+Theorem unit_order_ref w1 room1 w2 room2 g1 u1 E1 g2 u2 E2 :
+  gw_ok w1 room1 -> gw_ok w2 room2 -> gdigits g1 -> gdigits g2 -> gz g1 = false -> gz g2 = false ->
+  large_unit u1 E1 -> large_unit u2 E2 ->
+  if two_unit_fits room1 g1 E1 g2 E2
+  then r_parse C (two_unit_text w1 w2 g1 u1 g2 u2) = (true, 0%N, RNum (two_unit_digits g1 E1 g2 E2) [] (room2 g2 + E2))
+  else fst (r_parse C (two_unit_text w1 w2 g1 u1 g2 u2)) = (false, 0%N).
+Proof.
+  intros Hw1 Hw2 Hd1 Hd2 Hz1 Hz2 Hu1 Hu2. unfold r_parse, two_unit_text, two_unit_fits, two_unit_digits.
+  change r_new with (ss REmpty REmpty).
+  rewrite r_feed_app, (large_step_empty w1 room1 g1 u1 E1 Hw1 Hd1 Hz1 Hu1). cbv beta iota.
+  destruct (large_step' w2 room2 g2 u2 E2 (sdig g1 ++ repeat 0%N E1) (room1 g1 + E1) Hw2 Hd2 Hz2 Hu2) as (rp' & Her & ->).
+  rewrite app_length, repeat_length.
+  destruct (length (sdig g2) + E2 <=? room1 g1 + E1).
+  - now rewrite r_done_clean.
+  - cbn [fst]. now rewrite Her.
+Qed.
+
+Theorem unit_order_std w1 room1 w2 room2 g1 u1 E1 g2 u2 E2 :
+  gw_ok w1 room1 -> gw_ok w2 room2 -> gdigits g1 -> gdigits g2 -> gz g1 = false -> gz g2 = false ->
+  large_unit u1 E1 -> large_unit u2 E2 ->
+  if two_unit_fits room1 g1 E1 g2 E2
+  then parse C (two_unit_text w1 w2 g1 u1 g2 u2) = (true, 0%N, map digit_char (two_unit_digits g1 E1 g2 E2))
+  else fst (parse C (two_unit_text w1 w2 g1 u1 g2 u2)) = (false, 0%N).
+Proof.
+  intros Hw1 Hw2 Hd1 Hd2 Hz1 Hz2 Hu1 Hu2.
+  pose proof (unit_order_ref w1 room1 w2 room2 g1 u1 E1 g2 u2 E2 Hw1 Hw2 Hd1 Hd2 Hz1 Hz2 Hu1 Hu2) as Hr.
+  pose proof (parse_refines_std (two_unit_text w1 w2 g1 u1 g2 u2)) as H.
+  destruct (parse C (two_unit_text w1 w2 g1 u1 g2 u2)) as [[ok e] out].
+  destruct (two_unit_fits room1 g1 E1 g2 E2).
+  - rewrite Hr in H. destruct H as (-> & -> & Hout). rewrite (Hout eq_refl). f_equal. apply render_int.
+    unfold two_unit_digits. intros E. apply app_eq_nil in E. destruct E as [_ E]. apply app_eq_nil in E. destruct E as [E _].
+    unfold gz in Hz2. now rewrite E in Hz2.
+  - destruct (r_parse C (two_unit_text w1 w2 g1 u1 g2 u2)) as [[ok' e'] v]. cbn [fst] in *.
+    injection Hr as -> ->. destruct H as (-> & -> & _). reflexivity.
+Qed.
+
+Lemma groom_le g : groom g <= 3.
+Proof. destruct g as [[[a b] c] d]. unfold groom, groom3. destruct (N.eqb d 0), (N.eqb c 0), (N.eqb b 0); cbn; lia. Qed.
+
+Lemma sdig_nonempty g : gz g = false -> 1 <= length (sdig g).
+Proof. unfold gz. destruct (sdig g); [discriminate | cbn; lia]. Qed.
+
+(* an INCREASING large unit (億 after 万, 兆 after 億 or 万) is always rejected, whatever the groups and spellings *)
+Corollary increasing_unit_rejected w1 room1 w2 room2 g1 u1 E1 g2 u2 E2 :
+  gw_ok w1 room1 -> gw_ok w2 room2 -> gdigits g1 -> gdigits g2 -> gz g1 = false -> gz g2 = false ->
+  large_unit u1 E1 -> large_unit u2 E2 -> room1 g1 <= 3 -> E1 < E2 ->
+  fst (parse C (two_unit_text w1 w2 g1 u1 g2 u2)) = (false, 0%N).
+Proof.
+  intros Hw1 Hw2 Hd1 Hd2 Hz1 Hz2 Hu1 Hu2 Hr Hlt.
+  pose proof (unit_order_std w1 room1 w2 room2 g1 u1 E1 g2 u2 E2 Hw1 Hw2 Hd1 Hd2 Hz1 Hz2 Hu1 Hu2) as H.
+  assert (Hf : two_unit_fits room1 g1 E1 g2 E2 = false).
+  { unfold two_unit_fits. pose proof (sdig_nonempty g2 Hz2). apply Nat.leb_gt.
+    destruct Hu1 as [[_ ->]|[[_ ->]|[_ ->]]], Hu2 as [[_ ->]|[[_ ->]|[_ ->]]]; lia. }
+  now rewrite Hf in H.
+Qed.
+
+(* a REPEATED large unit is accepted exactly when group 2 has no more digits than the room left by the last small unit
+   of group 1 (0 after a ones digit or Arabic digits: always rejected; 1 / 2 / 3 after 十 / 百 / 千) *)
+Corollary repeated_unit_iff w1 room1 w2 room2 g1 u E g2 :
+  gw_ok w1 room1 -> gw_ok w2 room2 -> gdigits g1 -> gdigits g2 -> gz g1 = false -> gz g2 = false ->
+  large_unit u E ->
+  fst (fst (parse C (two_unit_text w1 w2 g1 u g2 u))) = (length (sdig g2) <=? room1 g1).
+Proof.
+  intros Hw1 Hw2 Hd1 Hd2 Hz1 Hz2 Hu.
+  pose proof (unit_order_std w1 room1 w2 room2 g1 u E g2 u E Hw1 Hw2 Hd1 Hd2 Hz1 Hz2 Hu Hu) as H.
+  unfold two_unit_fits in H. replace (length (sdig g2) + E <=? room1 g1 + E) with (length (sdig g2) <=? room1 g1) in H
+    by (destruct (Nat.leb_spec (length (sdig g2)) (room1 g1)), (Nat.leb_spec (length (sdig g2) + E) (room1 g1 + E)); lia).
+  destruct (length (sdig g2) <=? room1 g1); now rewrite H.
+Qed.
+
+(* when accepted, the value is the SUM of the two parts (no digit of group 1 is overwritten) *)
+Lemma groom_zeros g : gz g = false -> exists h, sdig g = h ++ repeat 0%N (groom g).
+Proof.
+  destruct g as [[[a b] c] d]. unfold gz, sdig, groom, groom3. cbn [gdig strip].
+  destruct (N.eqb_spec a 0) as [->|Ha], (N.eqb_spec b 0) as [->|Hb], (N.eqb_spec c 0) as [->|Hc], (N.eqb_spec d 0) as [->|Hd];
+    apply N.eqb_neq in Ha || idtac; apply N.eqb_neq in Hb || idtac; apply N.eqb_neq in Hc || idtac; apply N.eqb_neq in Hd || idtac;
+    cbn; rewrite ?Ha, ?Hb, ?Hc, ?Hd; cbn; try discriminate; intros _;
+    first [ now exists [] | now (eexists [_]) | now (eexists [_; _]) | now (eexists [_; _; _]) | now (eexists [_; _; _; _]) ].
+Qed.
+
+Theorem two_unit_value_is_sum room1 g1 E1 g2 E2 :
+  (exists h, sdig g1 = h ++ repeat 0%N (room1 g1)) ->
+  two_unit_fits room1 g1 E1 g2 E2 = true ->
+  to_N (two_unit_digits g1 E1 g2 E2) = (to_N (sdig g1 ++ repeat 0%N E1) + to_N (sdig g2 ++ repeat 0%N E2))%N.
+Proof.
+  intros (h & Eh) Hfit. unfold two_unit_fits in Hfit. apply Nat.leb_le in Hfit. unfold two_unit_digits.
+  set (x := sdig g2 ++ repeat 0%N E2). assert (Hx : length x = length (sdig g2) + E2) by (unfold x; now rewrite app_length, repeat_length).
+  rewrite <- Hx. rewrite Eh, <- app_assoc, repeat_app_add.
+  replace (repeat 0%N (room1 g1 + E1)) with (repeat 0%N (room1 g1 + E1 - length x) ++ repeat 0%N (length x))
+    by (rewrite repeat_app_add; f_equal; lia).
+  rewrite app_assoc. set (hh := h ++ repeat 0%N (room1 g1 + E1 - length x)).
+  replace (length (h ++ repeat 0%N (room1 g1)) + E1 - length x) with (length hh)
+    by (unfold hh; rewrite !app_length, !repeat_length; lia).
+  rewrite firstn_app_exact. symmetry. apply concat_is_sum.
+Qed.
+
+(* ------------------------------------------------------------------ (c) thousands separators, (d) fractions *)
+Lemma chunk3_spec k : forall l, length l = 3 * k ->
+  concat (chunk3 l) = l /\ Forall (fun g => length g = 3) (chunk3 l) /\ (0 < k -> chunk3 l <> []).
+Proof.
+  induction k as [|k IH]; intros l Hl.
+  - destruct l; [|discriminate]. cbn. repeat split; [constructor | lia].
+  - destruct l as [|a [|b [|c t]]]; try (cbn in Hl; lia). cbn [chunk3 concat app].
+    destruct (IH t) as (H1 & H2 & _); [cbn in Hl; lia|]. rewrite H1. repeat split; [now constructor | discriminate].
+Qed.
+
+Lemma Forall2_adigit_groups gs : Forall all_digits gs -> Forall2 (Forall2 digit_of) (map (map adigit) gs) gs.
+Proof. induction 1; constructor; [now apply Forall2_adigit | assumption]. Qed.
+
+Lemma all_digits_concat gs : all_digits (concat gs) -> Forall all_digits gs.
+Proof.
+  induction gs as [|g gs IH]; intros H; constructor; cbn [concat] in H; unfold all_digits in H; rewrite Forall_app in H; [tauto | apply IH; tauto].
+Qed.
+
+(* a digit string without leading zero and with more than three digits, written with separators every three digits
+   from the right, is accepted and normalised to the digits themselves *)
+Theorem grouped_canonical_std ds x t :
+  all_digits ds -> ds = x :: t -> x <> 0%N -> 3 < length ds ->
+  parse C (grouped_text ds) = (true, 0%N, map digit_char ds).
+Proof.
+  intros Hd Eds Hx Hlen. unfold grouped_text, groups3.
+  set (m := (length ds - 1) mod 3). set (q := (length ds - 1) / 3).
+  assert (Hdm : length ds - 1 = 3 * q + m) by (apply Nat.div_mod; lia).
+  assert (Hm : m < 3) by (apply Nat.mod_upper_bound; lia).
+  set (g0 := firstn (m + 1) ds). set (rest := skipn (m + 1) ds).
+  assert (Hrest : length rest = 3 * q) by (unfold rest; rewrite skipn_length; lia).
+  assert (Hq : 0 < q) by lia.
+  destruct (chunk3_spec q rest Hrest) as (Hc & Hf & Hne).
+  assert (Hsplit : g0 ++ rest = ds) by apply firstn_skipn.
+  assert (Hd0 : all_digits g0 /\ all_digits rest) by (unfold all_digits in *; rewrite <- Hsplit, Forall_app in Hd; exact Hd).
+  assert (Hok : groups_ok g0 (chunk3 rest) = true).
+  { apply groups_ok_spec; [now apply Hne|]. split; [|split; [|assumption]].
+    - unfold g0. rewrite firstn_length. lia.
+    - unfold g0. rewrite Eds. replace (m + 1) with (S m) by lia. cbn [firstn all_zero forallb].
+      destruct (N.eqb_spec x 0); [contradiction | reflexivity]. }
+  pose proof (grouped_std (map adigit g0) g0 (map (map adigit) (chunk3 rest)) (chunk3 rest)
+                (Forall2_adigit _ (proj1 Hd0))
+                (Forall2_adigit_groups _ (all_digits_concat _ (eq_ind_r all_digits (proj2 Hd0) Hc)))
+                (Hne Hq)) as H.
+  cbv zeta in H. rewrite Hok, map_map in H. rewrite H, Hc, Hsplit. reflexivity.
+Qed.
+
+Theorem grouped_canonical cfg ds x t :
+  cfg = std_cfg -> all_digits ds -> ds = x :: t -> x <> 0%N -> 3 < length ds ->
+  parse cfg (grouped_text ds) = (true, 0%N, map digit_char ds).
+Proof. intros ->. apply grouped_canonical_std. Qed.
+
+(* as a statement about values: 1000 <= n < 10^16 written with separators *)
+Theorem grouped_value cfg n :
+  cfg = std_cfg -> (1000 <= n < 10 ^ 16)%N -> parse cfg (grouped_text (dec16 n)) = (true, 0%N, map digit_char (dec16 n)).
+Proof.
+  intros -> Hn. destruct (dec16_spec n) as (Hv & Hd & x & t & E & Hx); [lia|].
+  apply (grouped_canonical_std _ x t Hd E Hx).
+  pose proof (to_N_bound _ Hd) as Hb. rewrite Hv in Hb.
+  destruct (Nat.le_gt_cases (length (dec16 n)) 3) as [Hle|]; [exfalso | assumption].
+  assert (10 ^ N.of_nat (length (dec16 n)) <= 10 ^ 3)%N by (apply N.pow_le_mono_r; lia).
+  change (10 ^ 3)%N with 1000%N in *. lia.
+Qed.
+
+(* (d) integer digits '.' fraction digits *)
+Theorem fraction_canonical cfg ip fp :
+  cfg = std_cfg -> all_digits ip -> all_digits fp -> ip <> [] -> fp <> [] ->
+  parse cfg (fraction_text ip fp) = (true, 0%N, render (ip, fp)).
+Proof.
+  intros -> Hi Hf Hni Hnf. unfold fraction_text.
+  apply (fraction_std _ _ _ _ (Forall2_adigit _ Hi) (Forall2_adigit _ Hf) Hni Hnf).
+Qed.
